@@ -50,7 +50,7 @@ def decide(pid, bad, prof):
         r = min(viols, key=lambda x: (len(x['spec']['nodes']), len(x['choices'])))
         C.report_violation(pid, {
             'property': pid, 'kind': 'failing-input', 'what': r['viol'], 'spec': r['spec'], 'choices': r['choices'],
-            'in_fragment': r['infrag'], 'model_divergence': r.get('div'),
+            'in_fragment': r.get('infrag'), 'model_divergence': r.get('div'),
             'replay': './check replay <this file>', 'others': len(viols) - 1})
         return C.EXIT_VIOLATION, len(viols)
     if divs:
